@@ -37,8 +37,13 @@ enum {
 
 static size_t s_advance_and_clamp_index(size_t current_index, int amount, size_t maximum) {
     size_t next_index = current_index + amount;
-    if (next_index > maximum) {
-        next_index = maximum;
+    if (next_index >= maximum) {
+        /*
+         * The output did not fit in [current_index, maximum): snprintf wrote (maximum - current_index - 1) characters
+         * and put its terminator at maximum - 1.  Continue from the terminator so that it gets overwritten and does
+         * not end up inside the log line.
+         */
+        next_index = maximum > 0 ? maximum - 1 : 0;
     }
 
     return next_index;
@@ -177,6 +182,10 @@ int aws_format_standard_log_line(struct aws_logging_standard_formatting_data *fo
     /*
      * End with a newline.
      */
+    if (current_index + 2 > formatting_data->total_length) {
+        /* no room for the newline and the terminator (only possible for a 1-byte buffer) */
+        return aws_raise_error(AWS_ERROR_SHORT_BUFFER);
+    }
     int newline_written_count =
         snprintf(formatting_data->log_line_buffer + current_index, formatting_data->total_length - current_index, "\n");
     if (newline_written_count < 0) {
